@@ -308,6 +308,21 @@ impl Copy for Decimal {}
 
 // ---- serde / marker traits: (de)serialisation is an uninterpreted function of the value
 pub trait Serialize {}
+// cosmwasm_std::{ContractInfoResponse, CodeInfoResponse} (plain records with `new`; cosmwasm-std 2.2.2 query/wasm.rs)
+pub struct ContractInfoResponse { pub code_id: u64, pub creator: Addr, pub admin: Option<Addr>, pub pinned: bool, pub ibc_port: Option<String> }
+impl ContractInfoResponse {
+    pub fn new(code_id: u64, creator: Addr, admin: Option<Addr>, pinned: bool, ibc_port: Option<String>) -> (r: Self)
+        ensures r == (ContractInfoResponse { code_id, creator, admin, pinned, ibc_port })
+    { ContractInfoResponse { code_id, creator, admin, pinned, ibc_port } }
+}
+pub struct CodeInfoResponse { pub code_id: u64, pub creator: Addr, pub checksum: Checksum }
+impl CodeInfoResponse {
+    pub fn new(code_id: u64, creator: Addr, checksum: Checksum) -> (r: Self)
+        ensures r == (CodeInfoResponse { code_id, creator, checksum })
+    { CodeInfoResponse { code_id, creator, checksum } }
+}
+impl Serialize for ContractInfoResponse {}
+impl Serialize for CodeInfoResponse {}
 impl Serialize for AllBalanceResponse {}
 impl Serialize for BalanceResponse {}
 impl Serialize for SupplyResponse {}
